@@ -29,18 +29,85 @@ ASSUMPTIONS = [
 BUDGET_S = {"quick": 36, "thorough": 480}
 
 
+ROLLBACK_ROWS = [  # (columns, row value): an earlier column is promoted on the way, a later one refuses -> the write is rolled back
+    ({"a": [1, 2, 3], "b": ["x", "y", "z"]}, [1.0, 7]), ({"a": [1, 2, 3], "b": ["x", "y", "z"]}, [2.5, 7]),
+    ({"a": [1, 2, 3], "b": ["x", "y", "z"]}, [(1 + 0j), 7]), ({"a": [1.0, 2.0], "b": ["x", "y"]}, [(1 + 0j), 7]),
+    ({"a": [1, 2, 3], "c": [4, 5, 6], "b": ["x", "y", "z"]}, [1.0, 4.0, 7]), ({"a": [True, False], "b": ["x", "y"]}, [None, 7]),
+    ({"a": [1, 2, 3], "b": ["x", "y", "z"]}, [None, 7]),
+]
+
+
+def _rollback(spec):
+    """after a REFUSED multi-column table assignment every column must still be truthful: each element can be written back into its
+    own position without an error and without changing the reported dtype (judged in Python: the write-back clause itself)"""
+    import warnings
+    from serif import Table
+    cols, row = ROLLBACK_ROWS[spec["k"] % len(ROLLBACK_ROWS)]
+    fails = []
+    with warnings.catch_warnings():
+        warnings.simplefilter("ignore")
+        t = Table({n: list(v) for n, v in cols.items()})
+        before = [(repr(c.schema()), [type(x).__name__ for x in c]) for c in t.cols()]
+        key = [0, slice(0, 1), slice(None, 1)][spec["k"] // len(ROLLBACK_ROWS) % 3]
+        try:
+            if isinstance(key, int):
+                t[key] = list(row)
+            else:
+                t[key] = [[x] for x in row]
+            return {"skip": "the assignment was accepted"}
+        except Exception:
+            pass
+        for j, c in enumerate(t.cols()):
+            if (repr(c.schema()), [type(x).__name__ for x in c]) != before[j]:
+                fails.append(f"column {j} shows {c.schema()!r} over element types {[type(x).__name__ for x in c]} after the refused "
+                             f"assignment t[{key!r}] = {row!r} (before: {before[j]})")
+            s0 = repr(c.schema())
+            for i in range(len(c)):
+                try:
+                    c[i] = c[i]
+                except Exception as e:
+                    fails.append(f"after the refused assignment, writing element {i} of column {j} back was refused: {type(e).__name__}")
+                    break
+                if repr(c.schema()) != s0:
+                    fails.append(f"after the refused assignment, writing element {i} of column {j} back changed its dtype {s0} -> {c.schema()!r}")
+                    break
+    w = {"fam": "known", "case": {}, "impl": {}}
+    if fails:
+        w["py_fail"] = "judged in Python: " + "; ".join(fails[:2])
+    else:
+        w["skip"] = "consistent (judged in Python)"
+    return w
+
+
 def generate(rng, tier):
-    return X.generate(rng, tier)
+    for k in range(3 * len(ROLLBACK_ROWS)):
+        yield {"fam": "rollback", "k": k}
+    yield from X.generate(rng, tier)
 
 
 def execute(spec):
+    if spec.get("fam") == "rollback":
+        return _rollback(spec)
     return X.execute(spec, PID)
 
 
-nontrivial = X.nontrivial
-histogram = X.histogram
-shrink = X.shrink
-snippet = X.snippet
+def nontrivial(spec, wire):
+    return True if spec.get("fam") == "rollback" else X.nontrivial(spec, wire)
+
+
+def histogram(spec, wire):
+    return ["rollback"] if spec.get("fam") == "rollback" else X.histogram(spec, wire)
+
+
+def shrink(spec):
+    return iter(()) if spec.get("fam") == "rollback" else X.shrink(spec)
+
+
+def snippet(spec):
+    if spec.get("fam") == "rollback":
+        cols, row = ROLLBACK_ROWS[spec["k"] % len(ROLLBACK_ROWS)]
+        return f"from serif import Table\nt = Table({cols!r})\ntry:\n    t[0] = {row!r}\nexcept Exception: pass\nprint([(c.schema(), list(c)) for c in t.cols()])"
+    return X.snippet(spec)
 
 
 KNOWN = {}
